@@ -269,10 +269,12 @@ def mechanic_start(sl):
     s = new_system()
     external = bool(fresh_bool("externally_provisioned"))
     nh = concrete(fresh_int("target_hosts", 1, 3))
-    dup = bool(fresh_bool("two_nodes_on_first_host")) if not external else False
+    # a further node on the first machine: none / under the same ip:port / under another port (a node mechanic of its own)
+    extra = concrete(fresh_int("further_node_on_first_host_none_same_port_other_port", 0, 2)) if not external else 0
     hosts = [{"host": "10.0.0.%d" % i if i else "127.0.0.1", "port": 9200} for i in range(nh)]
-    if dup:
-        hosts.append({"host": "127.0.0.1", "port": 9200})
+    if extra:
+        hosts.append({"host": "127.0.0.1", "port": 9200 if extra == 1 else 9201})
+    awaited = nh + (1 if extra == 2 else 0)
     m_addr = s.create(mechanic.MechanicActor, parent=s.rc_addr)
     m = s.actors[m_addr.addressDetails]
     with env():
@@ -283,7 +285,7 @@ def mechanic_start(sl):
         observe("external cluster: EngineStarted at once, nothing created or started", [x[1] for x in new] == ["EngineStarted"] and len(s.actors) == 2 and not CALLS)
     else:
         observe("nothing is reported before the hosts acknowledged", "EngineStarted" not in [x[1] for x in new])
-        observe("one acknowledgement per distinct host:port is awaited", len(m.children) == nh and all(c is None for c in m.children) and m.status == "starting")
+        observe("one acknowledgement per distinct host:port is awaited", len(m.children) == awaited and all(c is None for c in m.children) and m.status == "starting")
         disp = [a for a in s.actors.values() if isinstance(a, mechanic.Dispatcher)]
         observe("the start request goes to one dispatcher", len(disp) == 1 and [x[1] for x in new] == ["StartEngine"])
 
